@@ -98,6 +98,7 @@ func (t *target) run(r *runner) {
 	verifPoint("run.begin", t)
 	defer verifPoint("run.end", t)
 	defer r.running.Done()
+	defer verifPoint("run.leave", t)
 
 	r.gate.enter()
 	defer r.gate.exit()
@@ -253,6 +254,8 @@ func Run(targets Targets, label string) error {
 
 	// A target that detects a dependency cycle returns from EvaluateTargets without waiting for the
 	// dependencies it has started. Do not return while any target is still running.
+	verifPoint("main.waitall", &r)
 	r.running.Wait()
+	verifPoint("main.waitedall", &r)
 	return err
 }
